@@ -60,7 +60,7 @@ Section Frame.
       + destruct (set_nth_ok _ _ _ _ d SZ) as (L & _ & O). split; [exact L|].
         intros j Hj. apply O. intros C. subst j. apply Hj.
         eapply (filter_res_incl _ _ _ FZ). left. reflexivity.
-    - cbn [bind] in H.
+    - destruct (zipfilter_res _ ind df2) as [dfz|]; cbn [bind] in H; [|discriminate].
       destruct (filter_res _ ind) as [ind2|] eqn:F2 in H; cbn [bind] in H; [|discriminate].
       destruct (getmany pp1 ind2) as [ip2'|]; cbn [bind] in H; [|discriminate].
       inversion H; subst. split; [eapply filter_res_incl; eassumption | apply same_outside_refl].
